@@ -1173,7 +1173,8 @@ def verdict(chk, prop, res, cls_names, input_of, corr_id, exempt=None):
             chk.notes.append("NOTE stale known finding %s: its witness %s no longer fails" % (f["id"], f.get("witness")))
     exempt_rows = set()
     if exempt is not None:
-        exempt_rows = {i for i in mism if classes.get(i) and classes[i][exempt]}
+        # only the content comparison (sub-check 2) depends on the order of the racing writes; exit status does not
+        exempt_rows = {i for i in mism if classes.get(i) and classes[i][exempt] and mism[i] == [2]}
     rel = {i: s for i, s in mism.items() if i not in exempt_rows}
     chk.cov["correspondences"] = {corr_id: {"cases": len(rows), "mismatches": len(rel), "shard_errors": len(res["errors"]),
                                             "exempt_write_race": len(exempt_rows)}}
